@@ -11,6 +11,19 @@ ENV_MARKS = ["std::time::Instant::now", "std::time::SystemTime::now", "std::thre
              "std::process::id", "available_parallelism", "rand::", "getrandom", "std::thread::Thread::id", "current_thread_index",
              "current_num_threads", "std::fs::", "std::net::", "type_name"]
 SWALLOW_MARKS = ["catch_unwind", "resume_unwind", "set_hook", "take_hook", "update_hook"]
+THREAD_NAMES = set(["spawn", "spawn_scoped", "spawn_unchecked", "scope", "join"])
+
+
+def thread_handoffs(body):
+    """std::thread spawn / scope / join calls: work handed to a thread of its own ends its panics in a JoinHandle."""
+    out = []
+    for bb, t in body.normal_calls():
+        c = Callee(t["func"])
+        if not c.local and c.name in THREAD_NAMES and ("std::thread::" in c.path or "std::thread::" in c.inst_path):
+            out.append((bb, c))
+    return out
+
+
 LEAK_MARKS = ["std::mem::forget", "ManuallyDrop::<", "::leak", "into_raw", "mem::forget", "ManuallyDrop::new"]
 
 
